@@ -64,16 +64,36 @@ def _result(res, order):
     return out
 
 
+NOISE = {
+    "none": b"",
+    # asynchronous events are transparent to command replies, whatever their shape
+    "midline": b"650-CONF_CHANGED\r\n650-SocksPort=9150\r\n650 OK\r\n",
+    "block": b"650+NS\r\nr a b c 2030-01-01 00:00:00 10.0.0.1 9001 0\r\ns Fast\r\n.\r\n650 OK\r\n",
+    "single": b"650 BW 1 2\r\n",
+}
+
+
+def _noise(proto, noise, when):
+    """noise = <shape>@<when>: an unsolicited event before the command is issued or before its reply"""
+    if not noise or noise == "none":
+        return
+    shape, at = noise.split("@")
+    if at == when:
+        proto.dataReceived(NOISE[shape])
+
+
 def stuff(line):
     return "." + line if line.startswith(".") else line
 
 
-def getinfo_vector(kvs, seg="whole", rng=None):
+def getinfo_vector(kvs, seg="whole", rng=None, noise="none"):
     """kvs: list of (key, block, lines)"""
     run = cc.Run(wrap=False)
     p = run.proto
     fired = []
+    _noise(p, noise, "before")
     p.get_info(*[k for k, _, _ in kvs]).addBoth(fired.append)
+    _noise(p, noise, "during")
     wire = []
     for key, block, lines in kvs:
         if block:
@@ -90,15 +110,17 @@ def getinfo_vector(kvs, seg="whole", rng=None):
         fired.append(failure.Failure())
     res = fired[0] if fired else None
     return dict(p="C13", cmd="GETINFO", kvs=[dict(key=b(k), block=bl, lines=[b(l) for l in ls]) for k, bl, ls in kvs],
-                wire=[b(w) for w in wire], res=_result(res, [k for k, _, _ in kvs]), seg=seg,
+                wire=[b(w) for w in wire], res=_result(res, [k for k, _, _ in kvs]), seg=seg, noise=noise,
                 key=[], unset=False, vals=[])
 
 
-def getconf_vector(key, unset, vals, seg="whole", rng=None):
+def getconf_vector(key, unset, vals, seg="whole", rng=None, noise="none"):
     run = cc.Run(wrap=False)
     p = run.proto
     fired = []
+    _noise(p, noise, "before")
     p.get_conf(key).addBoth(fired.append)
+    _noise(p, noise, "during")
     if unset:
         wire = ["250 %s" % key]
     else:
@@ -110,7 +132,7 @@ def getconf_vector(key, unset, vals, seg="whole", rng=None):
         fired.append(failure.Failure())
     res = fired[0] if fired else None
     return dict(p="C13", cmd="GETCONF", key=b(key), unset=unset, vals=[b(v) for v in vals],
-                wire=[b(w) for w in wire], res=_result(res, [key]), seg=seg, kvs=[])
+                wire=[b(w) for w in wire], res=_result(res, [key]), seg=seg, noise=noise, kvs=[])
 
 
 def words(alpha, n):
